@@ -1,7 +1,7 @@
 CONSTANTS
   Bug = "none"
   Tier = "quick"
-  Dev <- AllDev
+  Dev <- No_script_changes_not_forwarded
 SPECIFICATION Spec
-INVARIANT WitEither
+INVARIANT Conf
 CHECK_DEADLOCK FALSE
